@@ -39,4 +39,10 @@ theorem gen_rule_types :
     ("bundle", "Bundle") ∈ Caco3Loader.ruleTypes ∧ ("file_set", "FileSet") ∈ Caco3Loader.ruleTypes ∧
     ("sub_builds", "SubBuilds") ∈ Caco3Loader.ruleTypes := by decide
 
+/-- the model has no cache: with nothing cached every node reached is executed, i.e. every node is its
+    own cache key.  That abstraction is sound only if each rule's digest covers its package-qualified
+    name, so that rules with the same local name in different packages never share an action digest. -/
+theorem gen_digest_covers_qualified_name :
+    Caco3Loader.digestNames ≠ [] ∧ ∀ d ∈ Caco3Loader.digestNames, d.2.2 = "qualified" := by decide
+
 end PubModel.C11
